@@ -707,6 +707,25 @@ func (h *v16) runStep(st *v16Step) {
 		p.reply(200, vMatchBody(s.peer.offer, s.relayURL))
 		h.addRecent("answer-refused")
 		if s.waitAnswered(20 * time.Second) {
+			if st.Variant == "client-gone-but-client-connects" {
+				// the broker says "client gone", yet the client has the answer and goes
+				// ahead: the proxy has given the round up (its slot is free again), so it
+				// must not serve this client - a client that is served holds a slot
+				s.mu.Lock()
+				ans := s.answer
+				s.mu.Unlock()
+				s.peer.applyAnswer(ans)
+				h.res.Obs("refused_answers_after_which_the_client_went_ahead", 1)
+				if s.peer.waitOpen(8*time.Second) && s.peer.send("hello") == nil {
+					if rc := h.relay.waitConn(s.key, 5*time.Second); rc != nil && !rc.isGone() {
+						held := h.openCount()
+						if S := vSlots(); S < held+1 {
+							h.res.Violatef("c16:client-served-without-a-slot:after-refused-answer", h.replay(h.caseID(), map[string]interface{}{"slots_in_use": S, "sessions_open_before": held}),
+								"capacity %d: the broker refused the proxy's answer (client gone), the proxy gave the slot back, yet the client is being relayed: %d slots in use for %d clients", h.cap, S, held+1)
+						}
+					}
+				}
+			}
 			h.stepDone(st, overlap)
 		} else {
 			h.res.Inconcl(fmt.Sprintf("step %d: the proxy posted no answer within 20 s", st.Idx))
@@ -1240,7 +1259,7 @@ var v16Variants = map[string][]string{
 	"bad-relay": {"out-of-pattern", "userinfo", "trailing-dot", "unparsable"},
 	// only for proxies that do not allow non-TLS relays: allowed host, scheme not wss
 	"bad-relay-scheme": {"scheme-ws", "scheme-ws-userinfo", "scheme-ws-userinfo-port", "scheme-ws-no-port", "scheme-http", "scheme-https", "scheme-empty", "scheme-wss-lookalike"},
-	"answer-refused":   {"client-gone", "http-500", "malformed", "empty-status"},
+	"answer-refused":   {"client-gone", "http-500", "malformed", "empty-status", "client-gone-but-client-connects", "client-gone-but-client-connects"},
 	"relay-closes":     {"close-now", "close-after-first"},
 }
 
@@ -1331,6 +1350,10 @@ func v16Plan(shard, nshards int, r *vlib.Rand) (int, bool, []*v16Step) {
 			st.DefURL = r.Chance(1, 5)
 		}
 		steps = append(steps, st)
+	}
+	if !vlib.Thorough() && (shard%12 == 2 || shard%12 == 5) { // capacities 3 and 1
+		i := len(steps) - 1
+		steps[i].Kind, steps[i].Variant = "answer-refused", "client-gone-but-client-connects"
 	}
 	if !vlib.Thorough() && shard%12 == 1 {
 		steps[0].Hold = 3
